@@ -68,6 +68,12 @@ fn main() {
         std::process::exit(2);
     }
     let cmd = args[1].as_str();
+    if cmd == "xhost" {
+        // vrun xhost <ID> <spec file> <host index>: one host of a multi-process job
+        quiet_panics();
+        let code = vcore::engine::xhost_main(args.get(3).map(|s| s.as_str()).unwrap_or(""), args.get(4).and_then(|s| s.parse().ok()).unwrap_or(0));
+        std::process::exit(code);
+    }
     let id = args[2].clone();
     let Some(def) = checks::find(&id) else {
         eprintln!("unknown check {id}");
